@@ -25,6 +25,7 @@ META = dict(
 )
 
 IDS = ["aa:bb:cc:dd:ee:01", "aa:bb:cc:dd:ee:02"]
+DEBOUNCE_MAX = 2.0
 
 
 # ------------------------------------------------------------------ advertisement builders
@@ -88,7 +89,7 @@ class H(explore.Harness):
         cache = CharacteristicCacheMemory()
         if self.mode == "cached":
             cache.async_create_or_update_map(IDS[0].upper(), 3, accessories(), None, 5)
-        self.nadv, self.last_adv, self.zc_cache, self.model_resolve = {}, {}, {}, {}
+        self.nadv, self.last_adv, self.zc_cache, self.model_resolve, self.may_find = {}, {}, {}, {}, set()
         self.ctrls = {}
         if p.get("browser"):
             import aiohomekit.zeroconf as zmod
@@ -203,8 +204,11 @@ class H(explore.Harness):
         if kind == "zc-add":
             props, v = self._props(dev_id, 0)
             self.zc_cache[name] = svc_info(hap, dev_id, props=props, name=f"Acc{IDS.index(dev_id)}")
+            self.may_find.add(dev_id)  # from now on a waiter may legitimately complete (the record is in the cache)
             if name not in self.model_resolve:
-                self.model_resolve[name] = (now + 0.5, dev_id, via, v)  # debounce: resolved half a second after the first state change
+                # the browser path may debounce: the record MUST have been processed DEBOUNCE_MAX after the state change (the code uses 0.5 s;
+                # the property does not fix the delay, so only an upper bound is demanded and earlier completion is fine)
+                self.model_resolve[name] = (now + DEBOUNCE_MAX, dev_id, via, v)
             c._handle_service(None, hap, name, ServiceStateChange.Added)
         else:
             # goodbye: the pending resolution (if any) is dropped; a later Added starts afresh
@@ -333,11 +337,11 @@ class H(explore.Harness):
                 exc = t.exception()
                 if exc is None:
                     d = t.result()
-                    if not (w["known_at_start"] or "adv_at" in w):
+                    if not (w["known_at_start"] or "adv_at" in w or w["id"] in self.may_find):
                         self.viol.append(("waiter-completed-without-advertisement", det))
                     elif getattr(getattr(d, "description", None), "id", None) != w["id"]:
                         self.viol.append(("waiter-completed-with-wrong-discovery", dict(det, got=repr(d)[:100])))
-                    elif now > (w.get("adv_at", w["t0"]) if not w["known_at_start"] else w["t0"]) + 1e-9:
+                    elif w["id"] not in self.may_find and now > (w.get("adv_at", w["t0"]) if not w["known_at_start"] else w["t0"]) + 1e-9:
                         self.viol.append(("waiter-completed-late", det))
                 elif isinstance(exc, AccessoryNotFoundError):
                     if expect_found:
@@ -390,7 +394,7 @@ class H(explore.Harness):
         from vt import canon as _c
 
         generic = tuple(_c.canon(c, depth=2, skip=("_char_cache", "_loop", "_async_zeroconf_instance", "pairings", "aliases", "discoveries", "transports", "_tasks")) for c in self.ctrls.values())
-        model = (tuple(sorted((k, v % 3) for k, v in self.nadv.items())), tuple(sorted((k, tuple(sorted(v.items()))) for k, v in self.last_adv.items())), tuple(sorted(self.zc_cache)),
+        model = (tuple(sorted(self.may_find)), tuple(sorted((k, v % 3) for k, v in self.nadv.items())), tuple(sorted((k, tuple(sorted(v.items()))) for k, v in self.last_adv.items())), tuple(sorted(self.zc_cache)),
                  tuple(sorted((n, round(d[0] - self.loop.time(), 6)) for n, d in self.model_resolve.items())))
         return (model, ws, timers, tuple(sorted(self.discovered)), regs, len(self.loop._ready), self.preempt, generic, tuple(sorted(k for c in self.ctrls.values() for k in c.discoveries)))
 
